@@ -658,6 +658,10 @@ class Emit:
             kind = "with"
         if kind == "include" and self.in_macro:
             kind = "render"
+        if kind == "cycle" and self.tpl != "tA":
+            # a partial may be parsed again per include; the cycle group key is an
+            # identity hash, so which item is evaluated would depend on addresses
+            kind = "with"
         if kind in ("if", "unless"):
             self.open_tag(kind)
             self.w(" ")
